@@ -64,7 +64,41 @@ fn parse(der: &[u8]) -> Result<Parsed, String> {
 }
 
 fn accepts_own_hash(cert: &Certificate) -> Result<(), String> {
-    let v = ServerHashVerification::new([cert.hash()]);
+    // the own hash among other pins, entered through the constructor or add() in any order
+    use std::sync::atomic::{AtomicU64, Ordering};
+    static N: AtomicU64 = AtomicU64::new(0);
+    let n = N.fetch_add(1, Ordering::Relaxed);
+    let mut r = Rng::new(0xC19_0A11 ^ n);
+    let others: Vec<wtransport::tls::Sha256Digest> = (0..[0usize, 1, 2, 7, 40][(n % 5) as usize]).map(|_| wtransport::tls::Sha256Digest::new(r.bytes(32).try_into().unwrap())).collect();
+    let v = match n % 4 {
+        0 => ServerHashVerification::new(others.iter().cloned().chain([cert.hash()])),
+        1 => {
+            let mut v = ServerHashVerification::new(others.iter().cloned());
+            v.add(cert.hash());
+            v
+        }
+        2 => {
+            let mut v = ServerHashVerification::new([cert.hash()]);
+            for o in &others {
+                v.add(o.clone());
+            }
+            v
+        }
+        _ => {
+            let mut v = ServerHashVerification::new(Vec::<wtransport::tls::Sha256Digest>::new());
+            let k = if others.is_empty() { 0 } else { r.usize(0, others.len()) };
+            for (i, o) in others.iter().enumerate() {
+                if i == k {
+                    v.add(cert.hash());
+                }
+                v.add(o.clone());
+            }
+            if k >= others.len() {
+                v.add(cert.hash());
+            }
+            v
+        }
+    };
     let der = rustls_pki_types::CertificateDer::from(cert.der().to_vec());
     let name = rustls_pki_types::ServerName::try_from("localhost").unwrap();
     v.verify_server_cert(&der, &[], &name, &[], rustls_pki_types::UnixTime::now()).map(|_| ()).map_err(|e| e.to_string())
@@ -464,6 +498,56 @@ async fn pem_store_load_stress(rep: &mut Report, dir: &PathBuf, rounds: usize) {
     }
 }
 
+/// Stores of different sizes to ONE path, no deletion in between: after every store the file is
+/// exactly what was stored last (no remains of a longer, earlier content).
+async fn pem_overwrite_case(rep: &mut Report, dir: &PathBuf, r: &mut Rng, rounds: usize) {
+    let ids: Vec<Identity> = vec![
+        Identity::self_signed(["a.example"]).unwrap(),
+        Identity::self_signed((0..40).map(|i| format!("a-rather-long-subject-alternative-name-number-{i}.example"))).unwrap(),
+        Identity::self_signed(["b.example", "127.0.0.1", "::1"]).unwrap(),
+    ];
+    let certs: Vec<Certificate> = ids.iter().map(|i| i.certificate_chain().as_slice()[0].clone()).collect();
+    let p = dir.join("overwrite.pem");
+    let pk = dir.join("overwrite-key.pem");
+    let _ = std::fs::remove_file(&p);
+    let mut prev_len = 0usize;
+    for i in 0..rounds {
+        let n = r.usize(0, 4);
+        let pick: Vec<Certificate> = (0..n).map(|_| certs[r.usize(0, certs.len() - 1)].clone()).collect();
+        let as_chain = n != 1 || r.chance(1, 2);
+        let (want_pem, stored) = if as_chain {
+            let c = CertificateChain::new(pick.clone());
+            (c.as_slice().iter().map(|x| x.to_pem()).collect::<Vec<_>>().join(""), c.store_pemfile(&p).await.is_ok())
+        } else {
+            (pick[0].to_pem(), pick[0].store_pemfile(&p).await.is_ok())
+        };
+        rep.eval(format!("pem-overwrite|{}|{}", if as_chain { "chain" } else { "cert" }, match want_pem.len().cmp(&prev_len) { std::cmp::Ordering::Less => "shorter", std::cmp::Ordering::Equal => "same", std::cmp::Ordering::Greater => "longer" }));
+        if !stored {
+            rep.inconclusive("overwrite: store failed");
+            continue;
+        }
+        let on_disk = std::fs::read(&p).unwrap_or_default();
+        let loaded = CertificateChain::load_pemfile(&p).await.map(|c| c.as_slice().iter().map(|x| x.der().to_vec()).collect::<Vec<_>>()).map_err(|e| e.to_string());
+        let want: Vec<Vec<u8>> = pick.iter().map(|c| c.der().to_vec()).collect();
+        if on_disk != want_pem.as_bytes() || loaded.as_ref().ok() != Some(&want) {
+            rep.violation(
+                "C19|pem|overwrite-roundtrip",
+                format!("round {i}: stored {} certificate(s) ({} bytes of PEM) over a file of {prev_len} bytes; file now has {} bytes, load gives {:?} certificate(s)", want.len(), want_pem.len(), on_disk.len(), loaded.as_ref().map(|v| v.len())),
+                J::obj([("previous_len", J::u(prev_len as u64)), ("stored_len", J::u(want_pem.len() as u64)), ("file_len", J::u(on_disk.len() as u64))]),
+            );
+        }
+        prev_len = on_disk.len();
+        // private keys: same contract
+        let key = ids[r.usize(0, ids.len() - 1)].private_key();
+        if key.store_secret_pemfile(&pk).await.is_ok() {
+            let txt = std::fs::read(&pk).unwrap_or_default();
+            if txt != key.to_secret_pem().as_bytes() {
+                rep.violation("C19|pem|overwrite-roundtrip", "private key file differs from to_secret_pem() after overwriting".to_string(), J::Null);
+            }
+        }
+    }
+}
+
 pub fn run(args: &Args) -> Report {
     let mut rep = Report::new();
     let mut rng = Rng::derive(args.seed, 0xC19);
@@ -496,6 +580,7 @@ pub fn run(args: &Args) -> Report {
             check_pem(&mut rep, &mut rng, &dir, i).await;
         }
         pem_store_load_stress(&mut rep, &dir, if args.thorough { 3000 } else { 300 }).await;
+        pem_overwrite_case(&mut rep, &dir, &mut rng, if args.thorough { 600 } else { 60 }).await;
     });
     rt.shutdown_timeout(Duration::from_millis(100));
     let _ = std::fs::remove_dir_all(&dir);
